@@ -166,7 +166,10 @@ pub fn j_structured(toks: &[char], seps: &[usize], c: i128, variant: usize, out:
 // string lattices
 
 pub fn alphabet(p: usize) -> Vec<&'static str> {
-    let common = vec!["μ", "€", "𝟑", "٣"];
+    // 2-, 3- and 4-byte characters, one per predicate class the parsers use: letters, non-ASCII digits (is_numeric but
+    // not is_ascii_digit), multi-byte white space (is_whitespace; trim() removes it), and letters whose case mapping
+    // changes the byte length
+    let common = vec!["μ", "€", "𝟑", "٣", "\u{a0}", "\u{2003}", "７", "ß", "İ"];
     let mut v: Vec<&'static str> = match p {
         0 | 1 => vec!["0", "1", "9", "-", ":", "T", " ", ".", "Z", "+", "J", "D", "M", "S", "E", "C", "U", "A", "I"],
         2 | 7 => vec!["%", "Y", "m", "d", "H", "M", "S", "f", "T", "z", "j", "J", "w", "a", "A", "b", "B", "y", "?", "-", " ", ":", "x"],
@@ -435,6 +438,25 @@ pub fn run(rep: &mut Report) {
             j_structured(&toks, &[s], cs[rot % 3], v, out)
         });
     }
+    // year magnitude scan: a geometric lattice of years up to beyond 2^32 (ratio 1.0005 quick / 1.0001 thorough, so every
+    // band of years whose relative width exceeds the ratio is hit), as text through the three Gregorian entry points
+    let ratio = if q { 1.0005f64 } else { 1.0001 };
+    let mut ys: Vec<u64> = vec![];
+    let mut y = 1u64;
+    while y < 5_000_000_000 {
+        ys.push(y);
+        y = ((y as f64 * ratio) as u64).max(y + 1);
+    }
+    rep.bound("year_scan", format!("{} years, geometric ratio {ratio}", ys.len()));
+    crate::engine::sweep(rep, "c13.year_scan", ys.len() as u64 * 4, |i, out| {
+        let y = ys[(i / 4) as usize];
+        match i % 4 {
+            0 => j_total(0, &format!("{y}-06-15T12:30:45 UTC"), out),
+            1 => j_total(1, &format!("{y:04}-01-01T00:00:00 TAI"), out),
+            2 => j_total(0, &format!("-{y}-12-31T23:59:59 GPST"), out),
+            _ => j_total2("%Y-%m-%d", &format!("{y}-12-31"), out),
+        }
+    });
     // out-of-range fields
     let years = [1i32, 1900, 2000, 2023, 2024, 9999];
     let months = [0u32, 1, 2, 4, 6, 12, 13, 99];
